@@ -10,7 +10,10 @@
       `await` step (if it is ever awaited);
     * if A is awaited before B is started, A's exit precedes B's entry.
   Everything else (main-flow events, results, states, variables, pending
-  calls) must be equal.
+  calls) must be equal — including the last record of a trace, `quiesce n`:
+  when every call has returned, n results are still held by their call
+  goroutines, neither collected at an await point nor cancelled by a teardown;
+  the model predicts `(uncollected finalEnv).length`.
 -/
 import ControlModel.Model.Env
 
@@ -29,6 +32,9 @@ inductive IEv where
   | body (e : String)
   | runEvent (tr status : String) (rn t : Nat)
   | reqEnd (res : IRes) (st : String) (rn : Nat) (vars : Vars) (pending : List (String × Int × Nat)) (gone : Bool)
+  /-- end of the case, every call has returned: `n` results are held by their call goroutine,
+      neither collected at an await point nor cancelled by a teardown -/
+  | quiesce (n : Nat)
   deriving Repr, BEq, Inhabited
 
 abbrev ITrace := List IEv
@@ -88,12 +94,21 @@ def reqItems (r : List Step × Result × Env) : List MItem :=
   (r.1.map stepItems).flatten ++
     [.obs (.reqEnd r.2.1.toIRes r.2.2.st.name r.2.2.rn r.2.2.vars (pendingObs r.2.2) r.2.2.gone)]
 
+/-- The calls whose result is still waiting to be collected: started, registered under their
+    await expression, not yet awaited there and not cancelled by a teardown. -/
+def uncollected (env : Env) : List Inst :=
+  (allPending env).filter fun i => !isCancelled env i
+
+/-- What is left when the case ends. -/
+def endItems (rs : List (List Step × Result × Env)) : List MItem :=
+  [.obs (.quiesce (uncollected ((rs.getLast?.map (·.2.2)).getD {})).length)]
+
 def modelItems (hooks : List Hook) (nTasks : Nat) (reqs : List Req) : List MItem :=
-  ((runSeq hooks nTasks {} reqs).map reqItems).flatten
+  ((runSeq hooks nTasks {} reqs).map reqItems).flatten ++ endItems (runSeq hooks nTasks {} reqs)
 
 /-- The same for request lists with overlapping pairs. -/
 def modelItemsPar (hooks : List Hook) (nTasks : Nat) (reqs : List PReq) : List MItem :=
-  ((runPar hooks nTasks {} reqs).map reqItems).flatten
+  ((runPar hooks nTasks {} reqs).map reqItems).flatten ++ endItems (runPar hooks nTasks {} reqs)
 
 /-! ### timestamp canonicalisation -/
 
